@@ -8,6 +8,7 @@ import (
 
 	"github.com/dave/dst"
 	"github.com/dave/dst/decorator/resolver"
+	"github.com/dave/dst/decorator/resolver/goast"
 	"github.com/dave/dst/decorator/resolver/guess"
 	"github.com/dave/dst/decorator/resolver/simple"
 )
@@ -570,14 +571,24 @@ func VerifC16Order() {
 		specs = append(specs, s)
 	}
 	var idents []*dst.Ident
-	n := 2 + vfTier()
+	n := 2
+	if vfTier() > 0 {
+		n += vfChoice("three", 2)
+	}
+	// the used paths: pool paths, or two paths that differ only in letter case (the ordering of the
+	// required imports must still be total, otherwise map order leaks into alias assignment)
+	pool := vfPool
+	if vfChoice("casePaths", 2) == 1 {
+		pool = []string{"x.y/Lib", "x.y/lib", "a"}
+		names["x.y/Lib"], names["x.y/lib"] = vfBytes("nameU", 1, "pq"), vfBytes("nameL", 1, "pq")
+	}
 	for i := 0; i < n; i++ {
-		idents = append(idents, &dst.Ident{Name: "N", Path: vfPool[i%len(vfPool)]})
+		idents = append(idents, &dst.Ident{Name: "N", Path: pool[i%len(pool)]})
 	}
 	file := vfFileWith(specs, idents)
 	twin := dst.Clone(file).(*dst.File)
 	alias := map[string]string{}
-	if vfTier() > 0 && vfChoice("override", 2) == 1 {
+	if vfTier() > 0 && n == 2 && vfChoice("override", 2) == 1 {
 		alias[vfPool[0]] = vfBytes("overrideAlias", 1, "pq")
 		alias[vfPool[1]] = vfBytes("overrideAlias2", 1, "pq")
 	}
@@ -592,15 +603,21 @@ func VerifC16Order() {
 		return fr, fr.updateImports()
 	}
 	r1, e1 := run(file)
-	vfMapOrderFork(true)
-	r2, e2 := run(twin)
-	vfMapOrderFork(false)
-	vfReach("both")
-	vfAssert((e1 == nil) == (e2 == nil), "same-error")
-	vfAssert(vfDeepEqual(file.Decls, twin.Decls), "imports-independent-of-map-order")
-	vfAssert(len(r1.packageNames) == len(r2.packageNames), "package-names-independent-of-map-order")
-	for k, v := range r1.packageNames {
-		vfAssert(r2.packageNames[k] == v, "package-names-independent-of-map-order")
+	// symbolically the second run forks over every iteration order of every map; natively Go's
+	// randomised map order is sampled repeatedly so that a counterexample order is met with
+	// overwhelming probability when the solver says one exists
+	for rep := 0; rep < vfNativeRepeats(); rep++ {
+		t := dst.Clone(twin).(*dst.File)
+		vfMapOrderFork(true)
+		r2, e2 := run(t)
+		vfMapOrderFork(false)
+		vfReach("both")
+		vfAssert((e1 == nil) == (e2 == nil), "same-error")
+		vfAssert(vfDeepEqual(file.Decls, t.Decls), "imports-independent-of-map-order")
+		vfAssert(len(r1.packageNames) == len(r2.packageNames), "package-names-independent-of-map-order")
+		for k, v := range r1.packageNames {
+			vfAssert(r2.packageNames[k] == v, "package-names-independent-of-map-order")
+		}
 	}
 }
 
@@ -678,18 +695,16 @@ func vfPerType_C07(typ string) {
 	g := &vfGen{prefix: "n", depth: 1, listLen: 1, exprPath: "x.y/b"}
 	// the path sits on every expression leaf, or on the leaves of exactly one expression field
 	info := vfNodeInfo[typ]
-	if k := vfChoice("only", len(info.ExprFields)+1); k < len(info.ExprFields) {
+	if k := vfChoice("only", len(info.ExprFields)+2); k < len(info.ExprFields) {
 		g.pathField = typ + "." + info.ExprFields[k]
+	} else if k == len(info.ExprFields)+1 {
+		g.pathField = "#nested" // only identifiers nested inside children (e.g. field types of a parameter list)
 	}
 	n := g.Node(typ)
 	file := vfWrapInFile(n)
-	var want []*dst.Ident
-	dst.Inspect(file, func(x dst.Node) bool {
-		if id, ok := x.(*dst.Ident); ok && id.Path != "" {
-			want = append(want, id)
-		}
-		return true
-	})
+	// the identifiers that carry a path, as recorded by the generator (not found by a tree walk, which
+	// is one of the things under test)
+	want := g.made
 	calls := 0
 	name := vfBytes("pkgname", 1, "pq")
 	res := NewRestorerWithImports(vfLocal, vfResolver{names: map[string]string{"x.y/b": name}, failAt: -1, calls: &calls})
@@ -715,4 +730,41 @@ func vfPerType_C07(typ string) {
 			vfAssert(se.X.(*ast.Ident).Name == name, "selector-uses-bound-name")
 		}
 	}
+}
+
+
+// VerifC16Decorate: two goroutines decorate different files with their own decorators (import
+// management on, shared syntax-based resolver); both files contain a qualified identifier with comments
+// inside, so that the decoration-merging code runs in both. No data race on any package-level or
+// shared state; each result equals the call made alone.
+func VerifC16Decorate() {
+	mk := func(tag string) (*ast.File, *token.FileSet) {
+		sel := &dst.SelectorExpr{X: &dst.Ident{Name: "a"}, Sel: &dst.Ident{Name: "N" + tag}}
+		sel.X.(*dst.Ident).Decs.End.Append("/*x" + tag + "*/")
+		sel.Decs.End.Append("/*e" + tag + "*/")
+		f := &dst.File{Name: &dst.Ident{Name: "pkg"}, Decls: []dst.Decl{
+			&dst.GenDecl{Tok: token.IMPORT, Specs: []dst.Spec{&dst.ImportSpec{Path: &dst.BasicLit{Kind: token.STRING, Value: "\"x.y/a\""}}}},
+			&dst.GenDecl{Tok: token.VAR, Specs: []dst.Spec{&dst.ValueSpec{Names: []*dst.Ident{{Name: "_"}}, Values: []dst.Expr{sel}}}}}}
+		r := NewRestorer()
+		af, _ := r.RestoreFile(f)
+		return af, r.Fset
+	}
+	a1, fs1 := mk("1")
+	a2, fs2 := mk("2")
+	b1, gs1 := mk("1")
+	b2, gs2 := mk("2")
+	shared := goast.New()
+	var d1, d2 *dst.File
+	var e1, e2 error
+	vfShared(shared)
+	vfParallel(func() {
+		d1, e1 = NewDecoratorWithImports(fs1, vfLocal, shared).DecorateFile(a1)
+	}, func() {
+		d2, e2 = NewDecoratorWithImports(fs2, vfLocal, shared).DecorateFile(a2)
+	})
+	vfAssert(vfRaceFree(), "no-data-race")
+	vfAssert(e1 == nil && e2 == nil, "no-error")
+	w1, _ := NewDecoratorWithImports(gs1, vfLocal, goast.New()).DecorateFile(b1)
+	w2, _ := NewDecoratorWithImports(gs2, vfLocal, goast.New()).DecorateFile(b2)
+	vfAssert(vfDeepEqual(d1, w1) && vfDeepEqual(d2, w2), "result-equals-call-made-alone")
 }
